@@ -1,34 +1,79 @@
 #!/venv/bin/python
-"""Apply every seeded change to /repo in turn, run all registered checks, restore.
-usage: seedmatrix.py [dir ...]   (default: /verif/seeded/*)"""
-import glob, json, os, subprocess, sys
+"""Run every registered check against every seeded change, in parallel, on
+scratch copies of /repo's sources (the /repo working tree is not touched).
+
+usage: seedmatrix.py [--update-meta] [--jobs N] [dir ...]   (default: /verif/seeded/*)
+Each directory holds patch.diff (+ meta.json).  Prints which checks report a
+VIOLATION (exit 1) / ANALYSIS-ERROR (exit 2) per seed."""
+import glob, json, os, shutil, subprocess, sys, tempfile
+from concurrent.futures import ThreadPoolExecutor
 sys.path.insert(0, '/verif')
-dirs = sys.argv[1:] or sorted(glob.glob('/verif/seeded/*'))
 from pyuverif.registry import CHECKS
-res = {}
-for d in dirs:
+
+args = sys.argv[1:]
+update = '--update-meta' in args
+args = [a for a in args if a != '--update-meta']
+jobs = 12
+if '--jobs' in args:
+    i = args.index('--jobs'); jobs = int(args[i + 1]); del args[i:i + 2]
+dirs = args or sorted(glob.glob('/verif/seeded/*'))
+tmproot = tempfile.mkdtemp(prefix='seedmx_', dir=os.environ.get('TMPDIR', '/tmp'))
+
+
+def one(d):
     patch = os.path.join(d, 'patch.diff')
     if not os.path.exists(patch):
-        continue
+        return None
     name = os.path.basename(d.rstrip('/'))
     if name.startswith('change_'):
-        name = d.split('/')[3] + '-' + name[-1]
-    r = subprocess.run(['git', '-C', '/repo', 'apply', '--3way', patch], capture_output=True, text=True)
+        name = d.rstrip('/').split('/')[3] + '-' + name[-1]
+    w = os.path.join(tmproot, name)
+    os.makedirs(w)
+    subprocess.run(['rsync', '-a', '--exclude', '*.so', '--exclude', '__pycache__',
+                    '--exclude', '_ext/numerics.c', '/repo/src', '/repo/setup.py', w + '/'],
+                   check=True)
+    r = subprocess.run(f'cd {w} && patch -s -p1 --fuzz=3 < {patch}', shell=True,
+                       capture_output=True, text=True)
     if r.returncode != 0:
-        r2 = subprocess.run(f'cd /repo && patch -s -p1 --fuzz=3 < {patch}', shell=True, capture_output=True, text=True)
-        if r2.returncode != 0:
-            print(name, 'PATCH FAILED'); subprocess.run(['git','-C','/repo','reset','-q','--hard','HEAD']); continue
-    caught = []
+        shutil.rmtree(w, ignore_errors=True)
+        return name, 'PATCH FAILED', {}
+    res = {}
     for c in sorted(CHECKS):
-        p = subprocess.run(['/verif/vcheck', c, '--no-write'], capture_output=True, text=True)
-        keys = [l.split('] ')[1].split(': ')[0] for l in p.stdout.splitlines() if l.startswith('  ') and '] ' in l and p.returncode == 1]
+        p = subprocess.run(['/verif/vcheck', c, '--no-write', '--repo', w],
+                           capture_output=True, text=True)
         if p.returncode == 1:
-            caught.append((c, keys[:3]))
+            keys = [l.split('] ')[1].split(': ')[0] for l in p.stdout.splitlines()
+                    if l.startswith('  ') and '] ' in l]
+            res[c] = keys
         elif p.returncode == 2:
-            caught.append((c + '(ERR)', [l for l in p.stdout.splitlines() if 'ANALYSIS-ERROR' in l][:1]))
-    subprocess.run(['git', '-C', '/repo', 'reset', '-q', '--hard', 'HEAD'])
-    subprocess.run('find /repo/src -name "*.orig" -delete', shell=True)
-    res[name] = caught
-    print(name, '->', '; '.join(f"{c}: {k}" for c, k in caught) or 'MISSED')
-st = subprocess.run(['git', '-C', '/repo', 'status', '--short'], capture_output=True, text=True).stdout
-print('repo status:', [l for l in st.splitlines() if not l.startswith('??')])
+            res[c + '(ERR)'] = [l[:160] for l in p.stdout.splitlines()
+                                if 'ANALYSIS-ERROR' in l][:1]
+    shutil.rmtree(w, ignore_errors=True)
+    return name, None, res
+
+
+with ThreadPoolExecutor(jobs) as ex:
+    results = [r for r in ex.map(one, dirs) if r]
+shutil.rmtree(tmproot, ignore_errors=True)
+caught = missed = err = 0
+for (name, fail, res), d in zip(results, [d for d in dirs if os.path.exists(os.path.join(d, 'patch.diff'))]):
+    if fail:
+        print(name, fail); continue
+    viol = {k: v for k, v in res.items() if not k.endswith('(ERR)')}
+    errs = {k: v for k, v in res.items() if k.endswith('(ERR)')}
+    if viol:
+        caught += 1
+    elif errs:
+        err += 1
+    else:
+        missed += 1
+    print(name, '->', '; '.join(f"{c}: {k[:2]}" for c, k in res.items()) or 'MISSED')
+    if update and os.path.exists(os.path.join(d, 'meta.json')):
+        m = json.load(open(os.path.join(d, 'meta.json')))
+        m['checked_against'] = {
+            'violations': {c: k[:6] for c, k in viol.items()},
+            'analysis_errors': errs,
+            'verdict': 'caught' if viol else ('analysis-error' if errs else 'missed'),
+            'how': 'tools/seedmatrix.py: patch applied to a scratch copy, every check run with --repo'}
+        json.dump(m, open(os.path.join(d, 'meta.json'), 'w'), indent=1)
+print(f'caught={caught} analysis-error-only={err} missed={missed} total={caught+err+missed}')
